@@ -24,6 +24,8 @@ type Env struct {
 	Syncs     int
 	// CacheViolations accumulates cache-mutation findings (C17 part 1).
 	CacheViolations []string
+	// QueueViolations: queue calls of a sync that name the synced parent by another key.
+	QueueViolations []string
 	// OGStyle: how healthy children report status.observedGeneration:
 	// 0 = their generation, 1 = not at all, 2 = as a string, 3 = constant 0.
 	OGStyle int
@@ -167,12 +169,40 @@ func (t *SyncTrace) Summary() []string {
 // test are captured in the trace (the caller decides whether that is a
 // violation).
 func (e *Env) Sync() *SyncTrace {
-	return e.run(func() error { return e.Ctl.Sync(e.ParentKey()) })
+	key := e.ParentKey()
+	t := e.run(func() error { return e.Ctl.Sync(key) })
+	e.judgeQueueKeys(t, key)
+	return t
+}
+
+// judgeQueueKeys: whatever a sync of one parent puts on the work queue (delayed resync, retry) must use the key
+// the event handlers use for that parent. The queue hands a key to one worker at a time; a parent known under
+// two keys can be synced by two workers at once (C17: same results as running the syncs one after another).
+func (e *Env) judgeQueueKeys(t *SyncTrace, key string) {
+	for _, q := range t.Queue {
+		if (q.Op == "AddAfter" || q.Op == "AddRateLimited" || q.Op == "Add") && q.Key != key {
+			e.QueueViolations = append(e.QueueViolations, fmt.Sprintf("sync %d of key %q: %s(%q)", t.N, key, q.Op, q.Key))
+		}
+	}
+}
+
+// SharedStateViolation reports what the monitors that run with every sync have found (nil: nothing).
+func (e *Env) SharedStateViolation() error {
+	if len(e.CacheViolations) > 0 {
+		return vs.Violf("C17/cache-mutated", "shared cache objects changed during a sync: %v", e.CacheViolations)
+	}
+	if len(e.QueueViolations) > 0 {
+		return vs.Violf("C17/parent-queued-under-two-keys", "a sync queued its own parent under another key than the one the event handlers use: %v", e.QueueViolations)
+	}
+	return nil
 }
 
 // Process runs the controller's own queue step (sync + requeue bookkeeping).
 func (e *Env) Process() *SyncTrace {
-	return e.run(func() error { e.Ctl.Process(e.ParentKey()); return nil })
+	key := e.ParentKey()
+	t := e.run(func() error { e.Ctl.Process(key); return nil })
+	e.judgeQueueKeys(t, key)
+	return t
 }
 
 func (e *Env) run(f func() error) *SyncTrace {
@@ -299,7 +329,10 @@ func FindIn(list []map[string]any, like map[string]any) map[string]any {
 
 // syncOf runs one sync of an arbitrary parent of the controller's parent resource.
 func (e *Env) syncOf(parent map[string]any) *SyncTrace {
-	return e.run(func() error { return e.Ctl.Sync(e.Ctl.KeyFor(parent)) })
+	key := e.Ctl.KeyFor(parent)
+	t := e.run(func() error { return e.Ctl.Sync(key) })
+	e.judgeQueueKeys(t, key)
+	return t
 }
 
 // DesiredFromTrace returns the children (attachments) of the last sync/finalize
